@@ -5,6 +5,12 @@
 From Coq Require Import Arith.
 From DippyV Require Import Base.Str Base.Verdict Model.Logging Proofs.LoggingP Proofs.JsonP Proofs.LogLineP Proofs.AppendP.
 
+(* the tie: the except clauses and the raiseExceptions setting read from the working tree are those of
+   [head] (today's code) or of [quiet] (today's code plus the proposed stderr repair) *)
+Theorem C15_tables_tie : catches_agree current head = true \/ catches_agree current quiet = true.
+Proof. exact tables_tie. Qed.
+Print Assumptions C15_tables_tie.
+
 (* For all fault oracles (any fault, at any operation of either sink, in any combination, of any
    class the real call can raise), for every input (mode, verdict class, route, config): stdout
    and the exit status are those of the run with logging off. *)
@@ -49,6 +55,13 @@ Theorem C15_traceback_refuted :
   exists i f, realistic f /\ r_tracebacks (hook_run head f [] i) <> r_tracebacks (run_nolog i).
 Proof. exact traceback_refuted. Qed.
 Print Assumptions C15_traceback_refuted.
+(* with the proposed repair (setup_logging sets logging.raiseExceptions = False; table [quiet]) the full
+   statement holds, stdout and exit still being those of the run with logging off *)
+Theorem C15_no_traceback_repaired : forall f ts i, realistic f ->
+  r_tracebacks (hook_run quiet f ts i) = 0%nat /\
+  r_stdout (hook_run quiet f ts i) = r_stdout (run_nolog i) /\ r_exit (hook_run quiet f ts i) = r_exit (run_nolog i).
+Proof. exact quiet_no_traceback. Qed.
+Print Assumptions C15_no_traceback_repaired.
 
 (* When the decision log works (the approvals log may fail in any way), a decision appends exactly
    one line; the line is printable ASCII with its only newline at the end, an RFC 8259 reader gives
